@@ -9,6 +9,10 @@ cut mid-sentence), requests `decoder_lattice` mid-utterance and at the end and d
 iterator API together with the search FSG and the history table; `ssdriver c11` runs `latticeOKB`
 and `checkFirstBest` on the C lattice (implementation-side oracle) and the model's own
 `buildLattice` on the dumped history (correspondence, canonically sorted).
+Round 2: SSVerif/Props/C11Build.lean proves `buildLattice` => `LatticeOK` (and the first-best clause) for EVERY
+history table satisfying the decidable hypotheses `HistWF` / `chainOKB` / `extraB` (Model/LatticeHist.lean); the
+driver evaluates them on every dumped table / first-best segmentation (`histwf`, `chain` lines) and `check`
+records them as obligations and prints how often each was evaluated.
 """
 import json, os, array
 import vlib
@@ -207,6 +211,159 @@ def multi_case(rng, audios):
     return dict(grammar=g, kind=kind, audio=base, cfg=cfg, cut=n, mids=list(mids), beam="default", k=4, utts=utts, order=order)
 
 
+NEW_PRONS = ["F AO R W ER D", "G OW", "T EH N", "M IY T ER Z", "HH AH L OW", "S T AA P", "AH", "W AH N T UW"]
+
+
+def gen_calls(rng, after_end):
+    """a list of public calls that feed no audio and do not replace the search (harness cmd_calls)"""
+    def word():
+        return rng.choice(["_forward", "_go", "_x" + str(rng.range(0, 99)), "newword", "go(7)", "ten"])
+
+    def one():
+        k = rng.weighted([("hyp", 3), ("prob", 2), ("seg", 3), ("nb", 3), ("al", 2), ("json", 3), ("nf", 1), ("cmn0", 1), ("cmn1", 1),
+                          ("setcmn", 1), ("cfg", 1), ("get", 1), ("time", 1), ("ref", 1), ("lat", 2), ("lw", 2), ("aw0", 3),
+                          ("aw1", 6 if after_end else 0)])
+        if k == "seg":
+            return "seg" + str(rng.choice([0, 1, 2, 50]))
+        if k == "nb":
+            return "nb" + str(rng.choice([0, 1, 3, 20]))
+        if k == "json":
+            return "json" + str(rng.choice([0, 1, 2]))
+        if k == "lw":
+            return "lw:" + hx(rng.choice(["go", "forward", "nosuchword", "_forward"]))
+        if k in ("aw0", "aw1"):
+            return f"{k}:{hx(word())}:{hx(rng.choice(NEW_PRONS))}"
+        return k
+    return ",".join(one() for _ in range(rng.range(1, 6)))
+
+
+def calls_case(rng, audios, stats=None):
+    """a decode in which every lattice request is followed by public calls that feed no audio (queries, accessors,
+    dictionary additions; after the end of the utterance also decoder_add_word(update=TRUE), which re-initialises the search)
+    and by a second request: the cache clause quantifies over everything but new audio"""
+    cs = gen_case(rng, audios, k=4)
+    if rng.chance(0.5):
+        cs = aim_case(rng, cs, audios, stats)
+    if not cs["mids"]:
+        cs["mids"] = [rng.range(8000, max(8001, cs["cut"] - 1))] if cs["cut"] > 8001 else []
+    calls = {str(i): gen_calls(rng, False) for i in range(len(cs["mids"])) if rng.chance(0.7)}
+    calls["end"] = gen_calls(rng, True)
+    if "aw1" not in calls["end"] and rng.chance(0.7):
+        calls["end"] += f",aw1:{hx('_forward')}:{hx('F AO R W ER D')}" + rng.choice(["", ",hyp", ",nb1", ",lat"])
+    cs["calls"] = calls
+    if rng.chance(0.5):
+        cs["cfg"] = [o for o in cs["cfg"] if not o.startswith("bestpath")] + [rng.choice(["bestpath=no", "bestpath=yes"])]
+    return cs
+
+
+_PRON = {}
+
+
+def pron_of(word):
+    """pronunciation of a word of the model dictionary (first entry)"""
+    if not _PRON:
+        for line in (vlib.REPO / "model" / "en-us" / "dict.txt").read_text(errors="replace").split("\n"):
+            t = line.split()
+            if len(t) >= 2 and t[0] not in _PRON:
+                _PRON[t[0]] = " ".join(t[1:])
+    return _PRON.get(word)
+
+
+def write_fsg(audios, fsg):
+    """FSG text file (fsg_model_readfile) of a generated grammar with sparse / huge state numbers"""
+    text = ["FSG_BEGIN big", f"NUM_STATES {fsg['n_states']}", f"START_STATE {fsg['start']}", f"FINAL_STATE {fsg['final']}"]
+    text += [f"TRANSITION {f} {t} {pr} {w}" for (f, t, pr, w) in fsg["trans"]] + ["FSG_END", ""]
+    body = "\n".join(text)
+    import hashlib
+    path = os.path.join(os.path.dirname(audios["pizza"]), "g-" + hashlib.sha1(body.encode()).hexdigest()[:16] + ".fsg")
+    if not os.path.exists(path):
+        open(path, "w").write(body)
+    return path
+
+
+def big_case(rng, audios, huge=False, short=False):
+    """large-grammar family: an FSG whose state numbers are sparse and huge (around 2^15, 2^16, 2^16 + k, 2^17; the unused
+    numbers are unreachable padding states), with two branches that differ in a HOMOPHONE (a word `_w` added to the dictionary with
+    the pronunciation of `w`, so both branches end in the same frames), continue with the SAME word into two different grammar
+    states — whose numbers are congruent modulo 2^16 or 2^15 — and then with different words: two lattice nodes with the same
+    word and start frame and different grammar states coexist, and identifying them makes a path that is not a grammar path"""
+    if rng.chance(0.7):
+        ws, au = ["go", "forward", "ten", "meters"], "goforward"
+    else:
+        ws = [rng.choice(VOC[:14]) for _ in range(rng.range(3, 4))]
+        au = rng.weighted([("goforward", 3), ("goforward_fr", 1)])
+    i = rng.range(0, len(ws) - 2)                  # the word that gets a homophone; ws[i + 1] is the shared word
+    if short:
+        ws, au, i = ["go", "forward", "ten", "meters"], "goforward", rng.range(0, 1)
+    hom = "_" + ws[i]
+    alt_last = rng.choice([w for w in (["meter", "meet"] if ws[-1] == "meters" else VOC[:14]) if w != ws[-1]])
+    # branch B after the shared word: the rest of the sentence with another last word (or one more word when nothing is left)
+    rest_a = ws[i + 2:]
+    rest_b = (rest_a[:-1] + [alt_last]) if rest_a else [alt_last]
+    M = 1 << 16
+    hi = [32767, 32768, 32769, 65535, 65536, 65537, 40000 + rng.range(0, 999), 65536 + rng.range(40, 999)]
+    if huge:
+        hi += [131071, 131072, 131073 + rng.range(0, 99)]
+    used = set()
+
+    def fresh(cands):
+        for _ in range(200):
+            x = cands()
+            if x not in used:
+                used.add(x)
+                return x
+        raise RuntimeError("state numbering")
+    low = lambda: rng.range(0, 60)
+    anyst = (lambda: rng.choice(hi)) if rng.chance(0.5) else low
+    start = fresh(low if rng.chance(0.7) else anyst)
+    final = fresh(low if rng.chance(0.5) else anyst)
+    # the pair of states the shared word leads to: congruent modulo 2^16 (mostly) or 2^15
+    delta = rng.weighted([(M, 6), (2 * M if huge else M, 2), (M // 2, 2)])
+    while True:
+        ka = rng.range(1, 60)
+        if ka not in used and ka + delta not in used:
+            break
+    kb = ka + delta
+    used.update([ka, kb])
+    if rng.chance(0.5):
+        ka, kb = kb, ka
+    trans = []
+    cur = start
+    for w in ws[:i]:
+        nx = fresh(low)
+        trans.append((cur, nx, 1.0, w))
+        cur = nx
+    sa, sb = fresh(low), fresh(anyst)
+    trans += [(cur, sa, 0.5, ws[i]), (cur, sb, 0.5, hom), (sa, ka, 1.0, ws[i + 1]), (sb, kb, 1.0, ws[i + 1])]
+
+    def tail(st, words, to_final):
+        for j, w in enumerate(words):
+            nx = final if (j == len(words) - 1 and to_final) else fresh(anyst)
+            trans.append((st, nx, 1.0, w))
+            st = nx
+        return st
+    if rest_a:
+        tail(ka, rest_a, True)
+        tail(kb, rest_b, True)
+    else:
+        # the shared word is the last one of branch A: its target is the final state of A; B goes on
+        final = ka
+        tail(kb, rest_b, False)
+    n_states = max(max(f, t) for (f, t, _, _) in trans) + 1 + rng.range(0, 3)
+    n_states = max(n_states, final + 1, start + 1)
+    cfg = list(BEAMS[rng.choice(["default", "default", "wide"])])
+    if rng.chance(0.3):
+        cfg.append("fsgusefiller=no")
+    n = os.path.getsize(audios[au]) // 2
+    if short:
+        # last frames of "forward" / "ten" in tests/data/goforward.raw: 121 / 152; stop 8..40 frames after the shared word
+        n = min(n, ([121, 152][i] + rng.range(8, 40)) * 160 + rng.range(0, 159))
+    mids = sorted(rng.range(min(20000, n - 1), n) for _ in range(rng.range(0, 1)))
+    return dict(grammar="(FSG file, see fsg)", kind="big-fsg", audio=au, cfg=cfg, cut=n, mids=mids, beam="default", k=4,
+                addwords=[(hom, pron_of(ws[i]) or "G OW")],
+                fsg=dict(n_states=n_states, start=start, final=final, trans=trans, congruent_pair=[ka, kb], homophone=hom))
+
+
 def case_cmds(case, audios, bp=1):
     if case.get("utts"):
         cmds = ["newdec " + " ".join(case["cfg"]), "jsgf " + case["grammar"].encode().hex()]
@@ -220,9 +377,14 @@ def case_cmds(case, audios, bp=1):
             if u.get("end_request", True):
                 cmds.append(f"lat end {case['k']} {bp}")
         return cmds
-    cmds = ["newdec " + " ".join(case["cfg"]), "jsgf " + case["grammar"].encode().hex(), "audio " + audios[case["audio"]], "start"]
+    cmds = ["newdec " + " ".join(case["cfg"])]
+    # homophones / new words go into the dictionary before the grammar is compiled
+    cmds += [f"addword {hx(w)} {hx(ph)} 0" for (w, ph) in case.get("addwords", [])]
+    cmds += ["fsgfile " + write_fsg(audios, case["fsg"]) if case.get("fsg") else "jsgf " + case["grammar"].encode().hex(),
+             "audio " + audios[case["audio"]], "start"]
     pos = 0
     ops = " " + case["ops"] if case.get("ops") else ""
+    calls = case.get("calls") or {}     # request index ("0", "1", .. / "end") -> non-audio calls made after that request
     if case.get("full"):
         # everything searched inside one full_utt call: request the lattice on both sides of decoder_end_utt
         cmds += [f"procfull {case['cut']}", f"lat pre {min(case['k'], 200)} {bp}{ops}", "end", f"lat end {case['k']} {bp}{ops}"]
@@ -232,8 +394,13 @@ def case_cmds(case, audios, bp=1):
             cmds += [f"proc {m - pos}", f"lat mid{i} 0 2"]      # light request (no history dump, no search passes)
         else:
             cmds += [f"proc {m - pos}", f"lat mid{i} {min(case['k'], 200)} {bp}{ops}"]
+            if calls.get(str(i)):
+                # public calls that feed no audio, then the lattice again (light request): must be the same object
+                cmds += ["calls " + calls[str(i)], f"lat again{i} 0 2"]
         pos = m
     cmds += [f"proc {case['cut'] - pos}", "end", f"lat end {case['k']} {bp}{ops}"]
+    if calls.get("end"):
+        cmds += ["calls " + calls["end"], f"lat againend {min(case['k'], 8)} {bp}"]
     return cmds
 
 
@@ -254,22 +421,32 @@ def kv(ws):
 def parse(out):
     """list of lattice dumps of one harness run"""
     res, cur, utt = [], None, -1
+    trace, pending = [], []          # cache trace (Z lines) of the current decoder; requests made outside a dump
     for line in out.split("\n"):
         w = line.split()
         if not w:
+            continue
+        if w[0] == "newdec":
+            trace, pending = [], []
+        if w[0] == "Z" and len(w) == 4:
+            trace.append((w[1], int(w[2]), int(w[3])))
+            if w[1] == "decoder_lattice":
+                (cur["Zreq"] if cur is not None else pending).append(len(trace) - 1)
             continue
         if w[0] == "start" and len(w) == 2 and cur is None:
             utt += 1
         if w[0] == "LAT" and w[1] == "begin":
             cur = {"utt": max(utt, 0), "tag": w[2], "final": int(w[3].split("=")[1]), "frame": int(w[4].split("=")[1]), "nodes": [], "links": [],
                    "entries": {}, "X": [], "B": [], "BX": {}, "R": {}, "PX": [], "fsgW": {}, "fsgA": [], "hist": [],
-                   "null": False, "T": None}
+                   "null": False, "T": None, "trace": trace, "Zreq": pending}
+            pending = []
         elif cur is None:
             continue
         elif w[0] == "LAT" and w[1] == "null":
             cur["null"] = True
             cur["again"] = w[2].split("=")[1]
         elif w[0] == "LAT" and w[1] == "end":
+            mark_stale_history(cur)
             res.append(cur)
             cur = None
         elif w[0] == "H":
@@ -334,6 +511,97 @@ def parse(out):
 
 
 # --------------------------------------------------------------------------------------------
+# cache trace: the public calls the harness made, in order (Z lines); classification mirrors Model/LatticeCache
+# (`Call.ofApi`, evaluated by the driver on the same names: the two must agree, see cache_trace_check)
+
+AUDIO_API = {"decoder_process_int16", "decoder_process_float32", "decoder_end_utt"}
+RESTART_API = {"decoder_start_utt", "decoder_set_fsg", "decoder_set_jsgf_file", "decoder_set_jsgf_string", "decoder_set_align_text",
+               "decoder_reinit", "decoder_reinit_feat"}
+
+
+def quiet_event(ev):
+    """no audio searched, no new utterance, search not replaced"""
+    name, arg, _ = ev
+    if name in AUDIO_API:
+        return arg == 0
+    return name not in RESTART_API
+
+
+def mark_stale_history(d):
+    """a request that returns an object built BEFORE a decoder_add_word(update=TRUE): fsg_search_reinit has emptied the
+    history table since, so the dumped table is not what the lattice was built from (no build correspondence there)"""
+    tr = d["trace"]
+    for i in d["Zreq"][:1]:
+        obj = tr[i][2]
+        if obj < 0:
+            return
+        first = next(j for j in range(len(tr)) if tr[j][0] == "decoder_lattice" and tr[j][2] == obj)
+        if any(tr[j][0] == "decoder_add_word_update" for j in range(first, i)):
+            d["nohist"] = True
+            d["stale_hist"] = True
+
+
+def trace_requests(d):
+    """for every explicit request of this dump: (index, index of the previous request or None, calls in between,
+    all of them quiet?)"""
+    tr, res = d["trace"], []
+    for i in d["Zreq"]:
+        j = i - 1
+        while j >= 0 and tr[j][0] != "decoder_lattice":
+            j -= 1
+        if j < 0:
+            res.append((i, None, [], False))
+            continue
+        between = tr[j + 1:i]
+        res.append((i, j, [e[0] for e in between], all(quiet_event(e) for e in between)))
+    return res
+
+
+def cache_trace_check(trace):
+    """run the model (`Sess.init.outputs`, `quietFlags`) on the trace of one decoder; returns (mismatch or None, #requests)"""
+    lines, reqs = [], []
+    for (name, arg, obj) in trace:
+        if name == "decoder_lattice":
+            lines.append(f"z {name} {1 if obj >= 0 else 0}")
+            reqs.append(obj)
+        else:
+            if arg < 0:
+                return f"call {name} moved the search frame count by {arg}", len(reqs)
+            lines.append(f"z {name} {arg}")
+    if not reqs:
+        return None, 0
+    rc, out, err = vlib.run_driver("c11", "\n".join(lines) + "\nzrun\n", timeout=120)
+    ids = quiet = None
+    for line in out.split("\n"):
+        w = line.split()
+        if w and w[0] == "cachetrace":
+            if len(w) > 1 and w[1] == "unknown-call":
+                names = sorted(set(e[0] for e in trace))
+                return f"the model's Call.ofApi does not classify one of the calls {names}", len(reqs)
+            ids = [int(t) for t in w[1:]]
+        elif w and w[0] == "quiet":
+            quiet = [int(t) for t in w[1:]]
+    if rc != 0 or ids is None or quiet is None:
+        return f"driver failed on the cache trace: rc={rc} {err[-300:]}", len(reqs)
+    if ids != reqs:
+        k = next((i for i in range(min(len(ids), len(reqs))) if ids[i] != reqs[i]), min(len(ids), len(reqs)))
+        return (f"lattice request #{k} of the call trace: the model's cache hands out object {ids[k] if k < len(ids) else '?'}, the implementation "
+                f"returned {'NULL' if k < len(reqs) and reqs[k] < 0 else 'object ' + str(reqs[k] if k < len(reqs) else '?')} "
+                f"(model {ids[:k + 1][-6:]}, implementation {reqs[:k + 1][-6:]}; objects numbered in order of creation)"), len(reqs)
+    # the hypothesis of C11_cache_same_object_after_calls as the python oracle computes it
+    pyq, q = [], True
+    for ev in trace:
+        if ev[0] == "decoder_lattice":
+            pyq.append(1 if q else 0)
+            q = True
+        else:
+            q = q and quiet_event(ev)
+    if pyq != quiet:
+        return f"quiet flags differ: model {quiet[-8:]}, python oracle {pyq[-8:]}", len(reqs)
+    return None, len(reqs)
+
+
+# --------------------------------------------------------------------------------------------
 # driver protocol
 
 def intern_words(d):
@@ -373,7 +641,25 @@ def driver_block(d, k, with_build=True):
         for l in d["links"]:
             lines.append(f"l {l['src']} {l['dst']} {l['ef']} {l['ascr']}")
     lines.append(f"g {d['F'][0]}")
-    for (f, t, w) in d["fsgA"]:
+    arcs = d["fsgA"]
+    if len(arcs) > 20000:
+        # huge FSG (tens of thousands of padding states, each with its filler self-loops): the model only ever follows arcs out of
+        # states that occur in the dump (start state, states of lattice nodes and history entries) and one null hop from them;
+        # send the arcs leaving the null-closure of those states
+        keep = {d["F"][0]} | {n["state"] for n in d["nodes"]} | {x for h in d["hist"] if h for x in (h[2], h[3])}
+        nullto = {}
+        for (f, t, w) in arcs:
+            if w < 0:
+                nullto.setdefault(f, set()).add(t)
+        todo = list(keep)
+        while todo:
+            for t in nullto.get(todo.pop(), ()):
+                if t not in keep:
+                    keep.add(t)
+                    todo.append(t)
+        arcs = [a for a in arcs if a[0] in keep]
+        d["arcs_sent"] = len(arcs)
+    for (f, t, w) in arcs:
         lines.append(f"a {f} {tab[d['fsgW'][w][0]] if w >= 0 else -1} {t}")
     segs = real_segs(d)
     if segs and not d["null"]:
@@ -433,6 +719,10 @@ def parse_driver(out):
             cur["norm"] = int(w[1])
         elif w[0] == "p":
             cur["nbest"].append(dict(score=int(w[1]), nodes=[int(t) for t in w[2:]]))
+        elif w[0] == "chain":
+            cur["chain"] = dict(found=(w[1] == "found"), **({k: int(v) for k, v in (t.split("=", 1) for t in w[2:])} if w[1] == "found" else {}))
+        elif w[0] == "histwf":
+            cur["histwf"] = dict(ok=int(w[1]), **{k: v for k, v in (t.split("=", 1) for t in w[2:])})
         elif w[0] == "built":
             if w[1] == "skipped":
                 cur["built"] = "skipped"
@@ -461,7 +751,13 @@ def run_case(binp, case, audios, timeout=600):
     cmds = case_cmds(case, audios)
     # other checks running concurrently may prune the build cache: make sure the binary is there
     # (a cache hit costs a tree hash and touches the directory)
-    for attempt in range(3):
+    pre = case.pop("_pre", None)          # harness run started ahead of time (check(): the slow large-grammar decodes)
+    if pre is not None:
+        try:
+            rc, out, err = pre.result()
+        except Exception:
+            pre = None
+    for attempt in range(3 if pre is None else 0):
         try:
             binp = vlib.build_harness("h_c11")
             rc, out, err = vlib.run_bin(binp, stdin_text="\n".join(cmds) + "\n", leaks=True, timeout=timeout)
@@ -474,6 +770,9 @@ def run_case(binp, case, audios, timeout=600):
         for d in lats:
             if d["tag"] != "end":
                 d["nohist"] = True
+    for d in lats:
+        if d["tag"].startswith("again") and d["tag"] != "againend":
+            d["nohist"] = True          # light request (bp = 2)
     return rc, out, err, lats
 
 
@@ -606,6 +905,21 @@ def judge_c11(c, d, rep, tab, case, stats):
     if rep.get("bad"):
         probs.append(("lattice dump has negative indices/times", True, None))
         return probs
+    # cache clause over the call trace: a request after calls that searched no audio returns the object of the request before
+    for (i, j, between, quiet) in trace_requests(d):
+        if j is None or not quiet:
+            continue
+        tr = d["trace"]
+        extra = [b for b in between if b not in ("decoder_hyp", "decoder_seg_iter")]
+        for b in set(extra):
+            stats["cache:call-between-two-requests:" + b] = stats.get("cache:call-between-two-requests:" + b, 0) + 1
+        if extra:
+            stats["cache:second-request-after-other-public-calls"] = stats.get("cache:second-request-after-other-public-calls", 0) + 1
+        if "decoder_add_word_update" in extra:
+            stats["cache:second-request-after-add_word-update"] = stats.get("cache:second-request-after-add_word-update", 0) + 1
+        if tr[j][2] >= 0 and tr[i][2] != tr[j][2]:
+            probs.append((f"asking for the lattice again without new audio returned {'NULL' if tr[i][2] < 0 else 'a different object'}: "
+                          f"calls between the two requests (no frame searched): {between}; frame count {tr[j][1]} then {tr[i][1]}", True, None))
     if d["null"]:
         nw = sum(1 for h in d["hist"] if h and h[4] >= 0)
         if d.get("again") != "null":
@@ -725,6 +1039,12 @@ def eval_case(c, binp, audios, case, stats, with_build=True):
     if rcd != 0 or len(reps) != len(lats):
         return None, None, dict(driver_rc=rcd, stderr=derr[-1500:], nrep=len(reps), nlat=len(lats))
     res, mism = [], []
+    if with_build and lats:
+        cm, nreq = cache_trace_check(lats[-1]["trace"])
+        if stats is not None:
+            stats["cache:requests-compared-with-the-cache-model(Sess.outputs)"] = stats.get("cache:requests-compared-with-the-cache-model(Sess.outputs)", 0) + nreq
+        if cm:
+            mism.append(("cache-trace", cm))
     for d, rep, tab in zip(lats, reps, tabs):
         if stats is not None:
             lat_stats(stats, d, case)
@@ -732,6 +1052,31 @@ def eval_case(c, binp, audios, case, stats, with_build=True):
         mm = judge_build(c, d, rep, tab) if with_build else None
         if mm:
             mism.append((d["tag"], mm))
+        hw = rep.get("histwf")
+        if hw is not None and stats is not None:
+            # hypothesis of C11_build_latticeOK (Props/C11Build): evaluated by the driver on the dumped history table
+            stats["hyp:HistWF-evaluated-on-dumped-history-tables"] = stats.get("hyp:HistWF-evaluated-on-dumped-history-tables", 0) + 1
+            stats["hyp:HistWF-history-entries-covered"] = stats.get("hyp:HistWF-history-entries-covered", 0) + int(hw.get("entries", 0))
+            stats["hyp:HistWF-word-entries-covered"] = stats.get("hyp:HistWF-word-entries-covered", 0) + int(hw.get("word", 0))
+            if str(hw.get("extra", "1")) != "1" or str(hw.get("wframe", "1")) != "1":
+                stats["hyp:extraB-FAILED"] = stats.get("hyp:extraB-FAILED", 0) + 1
+            if not hw["ok"]:
+                stats["hyp:HistWF-FAILED"] = stats.get("hyp:HistWF-FAILED", 0) + 1
+                fails = getattr(c, "_histwf_fail", [])
+                fails.append(dict(case=describe(case), request=d["tag"], n_frames=d["frame"], bad_entry_indices=hw.get("bad"),
+                                  entries=[h for h in d["hist"]][:40]))
+                c._histwf_fail = fails
+            ch = rep.get("chain")
+            if ch is not None and not d["null"]:
+                # hypothesis of C11_build_first_best: the first-best segmentation is a complete backtrace of the dumped table
+                stats["hyp:ChainOK-evaluated-on-first-best-segmentations"] = stats.get("hyp:ChainOK-evaluated-on-first-best-segmentations", 0) + 1
+                if not (ch["found"] and ch.get("ok") == 1):
+                    stats["hyp:ChainOK-FAILED"] = stats.get("hyp:ChainOK-FAILED", 0) + 1
+                    fails = getattr(c, "_chain_fail", [])
+                    fails.append(dict(case=describe(case), request=d["tag"], n_frames=d["frame"], first_best=[x[:3] for x in real_segs(d)]))
+                    c._chain_fail = fails
+            if rep.get("built") not in (None, "skipped") and not rep["built"]["ok"]:
+                stats["hyp:model-lattice-fails-LatticeOK"] = stats.get("hyp:model-lattice-fails-LatticeOK", 0) + 1
     return res, mism, None
 
 
@@ -741,10 +1086,16 @@ def describe(case):
             dict(audio=(u["audio"] if isinstance(u["audio"], str) else
                         f"{u['audio']['n']} samples derived from tests/data/{u['audio']['base']}: {u['audio']['kind']} {u['audio']['param']}"),
                  samples_fed=u["cut"], lattice_requests_after_samples=u["mids"] + (["end"] if u.get("end_request", True) else [])) for u in case["utts"]])
+    extra = {}
+    if case.get("fsg"):
+        extra["grammar_fsg"] = case["fsg"]
+        extra["words_added_before_the_grammar(decoder_add_word, update=FALSE)"] = case.get("addwords", [])
+    if case.get("calls"):
+        extra["public_calls_after_request_then_a_second_request(harness cmd_calls syntax, arguments in hex)"] = case["calls"]
     return dict(grammar=case["grammar"], audio=f"tests/data/{case['audio']}" + (".raw" if case["audio"] != "pizza" else "-float32.raw (converted to int16)"),
                 config=case["cfg"], samples_fed=case["cut"], nbest=case["k"],
                 lattice_requests_after_samples=(["all samples in one decoder_process_int16(full_utt=1) call, before decoder_end_utt", "end"]
-                                                if case.get("full") else case["mids"] + ["end"]))
+                                                if case.get("full") else case["mids"] + ["end"]), **extra)
 
 
 def load_corpus(prop):
@@ -761,12 +1112,23 @@ def check(c):
                   "(generator, word interning, canonicalisation, diff)",
                   "clang ASan/UBSan/LSan as observer of memory errors in fsg_search.c / ps_lattice.c (any report fails the run)",
                   "the first-best path search of the driver is verified sound and complete (C11_first_best_decided); an independent python search cross-checks it"]
-    c.assumptions += ["the property is stated for requests that return a lattice; decoder_lattice returns NULL when the history has no word exit (observed: only then)",
+    c.assumptions += ["the property is stated for requests that return a lattice; decoder_lattice returns NULL exactly when the history has no word exit "
+                      "(theorem C11_build_lattice_iff_word_entry on the model + correspondence on every request)",
                       "time consistency between word nodes is `link ef = t, target sf = t+1, source sf <= t, fef <= t <= lef`; the synthetic <s>/</s> nodes are markers "
                       "(<s> at frame 0 linked to the word nodes starting at 0 with ef 0; links into </s> carry ef = n_frames) — DESIGN §4/C11",
                       "grammar paths are checked against the search FSG (with filler loops and alternate pronunciations added), one word step = word arc or one null arc + word arc"]
-    if not c.lean_obligations():
+    c.trusted += ["harness cmd_calls / the Z trace lines: that the harness prints the name of every public call it makes (the names are classified by "
+                  "the model's Call.ofApi in the driver; an unknown name fails the run)",
+                  "tools/gen_lattice.py gen_lattice_widths (compiled sizeof/signedness of the lattice fields, clang AST for the parameters of find_node/new_node)"]
+    c.assumptions += ["cache clause: `without new audio` = any sequence of public calls except decoder_process_* / decoder_end_utt that searched a frame, "
+                      "decoder_start_utt, and the calls that replace the search (decoder_set_fsg, _set_jsgf_*, _set_align_text, decoder_reinit*), which "
+                      "legitimately drop the lattice; decoder_apply_mllr and decoder_set_logfile are not generated (need an MLLR file / redirect the log); "
+                      "decoder_add_word(update=TRUE) while an utterance is in progress is outside the API protocol (DESIGN §4/C09: it frees the lextree "
+                      "the active search points into) and is generated only after decoder_end_utt"]
+    if not c.lean_obligations() and vlib._DRIVER_COPY is None:
         return
+    # (when a theorem no longer checks but the model driver builds — e.g. C11_lattice_integer_widths after a field was narrowed —
+    #  the run goes on: the failed obligation is recorded, and the generated families look for a concrete failing input)
     binp = vlib.build_harness("h_c11")
     audios = audio_files(str(c.scratch / "audio"))
     rng = c.rng.fork()
@@ -787,6 +1149,14 @@ def check(c):
         cs = gen_case(rng, audios)
         cs.update(full=True, mids=[])
         cases.append(cs)
+    # cache clause over the non-audio API: public calls between two requests (queries, accessors, add_word with and without update)
+    for _ in range(5 if c.tier == "quick" else 120):
+        cases.append(calls_case(rng, audios, stats))
+    # large-grammar family: sparse / huge state numbers, homophone branches into states congruent modulo 2^16 / 2^15
+    # (a decode costs ~50 ms per frame with 65 000 states under ASan: the quick tier cuts the audio soon after the shared word)
+    # (the corpus holds the demo-like member of the family; the quick tier adds one generated member)
+    for bi in range(1 if c.tier == "quick" else 36):
+        cases.append(big_case(rng, audios, huge=(c.tier != "quick" and bi % 4 == 3), short=(c.tier == "quick" or bi % 2 == 0)))
     # position sweeps: one decode, a (light) lattice request every few frames — requests are cheap compared with the decode
     lin = "#JSGF V1.0; grammar g; public <g> = go forward ten meters ;"
     br = "#JSGF V1.0; grammar g; public <g> = go (forward | backward | for ward) (ten | one | two | tend | a) [meter | meters | meet] ;"
@@ -797,10 +1167,25 @@ def check(c):
         au = rng.weighted([("goforward", 5), ("goforward_fr", 2), ("pizza", 3)])
         cases.append(sweep_case(rng, audios, g, au, BEAMS[rng.choice(["default", "default", "narrow", "wide"])], None, rng.range(3, 7), kind=kind))
     nlat, build_ok, nbuild, distinct = 0, True, 0, set()
+    cache_ok, ncache_mism = True, 0
     harness_ok = True
     viols, nmism = [], 0
+    import time as _time
+    fam_wall = {}
+    # the large-grammar decodes are slow (~50 ms per frame with 65 000 states under ASan): start their harness runs now, they proceed
+    # in parallel with the other cases (same binary, same commands, same judgement; run_case picks the result up)
+    from concurrent.futures import ThreadPoolExecutor
+    pool = ThreadPoolExecutor(max_workers=2)
+    cases.sort(key=lambda cs: bool(cs.get("fsg")))          # (stable) their results are collected last
+    for cs in cases:
+        if cs.get("fsg"):
+            cs["_pre"] = pool.submit(lambda text: vlib.run_bin(binp, stdin_text=text, leaks=True, timeout=600), "\n".join(case_cmds(cs, audios)) + "\n")
     for ci, case in enumerate(cases):
+        _t0 = _time.time()
         res, mism, fail = eval_case(c, binp, audios, case, stats)
+        _fam = "big-fsg" if case.get("fsg") else "calls-between-requests" if case.get("calls") else "multi-utterance" if case.get("utts") else \
+            "sweep" if case.get("sweep") else "full_utt" if case.get("full") else "corpus" if case.get("_corpus") else "generated"
+        fam_wall[_fam] = round(fam_wall.get(_fam, 0.0) + _time.time() - _t0, 1)
         if fail:
             harness_ok = False
             c.oblige("harness + driver run to completion without sanitizer report / abort", False, {"case": describe(case), **fail})
@@ -824,12 +1209,35 @@ def check(c):
                                            "checker_clauses": rep.get("clauses"),
                                            "how_to_rerun": "python3 tools/check.py C11 --replay <this file>"}, case, d["tag"]))
         for (tag, mm) in mism:
+            if tag == "cache-trace":
+                cache_ok = False
+                ncache_mism += 1
+                if ncache_mism <= 3:
+                    c.oblige("correspondence: cache model (Sess.outputs over the call trace) = object identities returned by decoder_lattice",
+                             False, {"case": describe(case), "mismatch": mm, "case_raw": {k: v for k, v in case.items() if not k.startswith("_")}})
+                continue
             build_ok = False
             nmism += 1
             if nmism <= 3:
                 c.oblige("correspondence buildLattice = fsg_search_lattice", False, {"case": describe(case), "request": tag, "mismatch": mm})
+        if case.get("fsg") and res:
+            # did the family produce what it is for: two nodes with the same word and start frame whose grammar states are congruent
+            ka, kb = case["fsg"]["congruent_pair"]
+            for (d, _, _, _) in res:
+                if d["null"]:
+                    continue
+                stats["big-fsg:requests"] = stats.get("big-fsg:requests", 0) + 1
+                if max((n["state"] for n in d["nodes"]), default=0) >= 32768:
+                    stats["big-fsg:lattice-with-a-node-state>=2^15"] = stats.get("big-fsg:lattice-with-a-node-state>=2^15", 0) + 1
+                if max((n["state"] for n in d["nodes"]), default=0) >= 65536:
+                    stats["big-fsg:lattice-with-a-node-state>=2^16"] = stats.get("big-fsg:lattice-with-a-node-state>=2^16", 0) + 1
+                keys = {(n["word"], n["sf"], n["state"]) for n in d["nodes"]}
+                if any((w, sf, kb) in keys for (w, sf, st) in keys if st == ka):
+                    stats["big-fsg:two-nodes-same-word-same-start-frame-states-congruent"] = \
+                        stats.get("big-fsg:two-nodes-same-word-same-start-frame-states-congruent", 0) + 1
         if len(viols) > 40:
             break
+    pool.shutdown(wait=False, cancel_futures=True)
     # record violations: those with a failing input first, one per witness class, each shrunk
     viols.sort(key=lambda v: (not v[0],))
     seen_cls, nrec = set(), 0
@@ -857,15 +1265,53 @@ def check(c):
     c.oblige("correspondence: model buildLattice on the dumped history = lattice of fsg_search_lattice (nodes, links, scores, start/end; canonically sorted) on every request",
              build_ok, f"{nmism} mismatching requests")
     c.oblige("every harness run finished without sanitizer report, assert or leak", harness_ok)
+    c.oblige("correspondence: the cache model run on the harness's call trace (API names classified by Call.ofApi in the driver, Sess.outputs) "
+             "hands out the same object identities as decoder_lattice returned, for every request of every case; the quiet flags "
+             "(hypothesis of C11_cache_same_object_after_calls) agree with the oracle's",
+             cache_ok and stats.get("cache:requests-compared-with-the-cache-model(Sess.outputs)", 0) > 0,
+             dict(requests=stats.get("cache:requests-compared-with-the-cache-model(Sess.outputs)", 0), mismatching_cases=ncache_mism))
+    nhw = stats.get("hyp:HistWF-evaluated-on-dumped-history-tables", 0)
+    hw_fail = getattr(c, "_histwf_fail", [])
+    c.oblige("hypothesis HistWF of C11_build_latticeOK (Props/C11Build) holds for every history table dumped from the implementation "
+             "(histWFB run by the driver; word arcs are FSG arcs, 1 <= frame < n_frames, predecessors earlier in table and time, "
+             "null entries one hop below a word entry or the root)",
+             nhw > 0 and not hw_fail,
+             dict(evaluated=nhw, history_entries=stats.get("hyp:HistWF-history-entries-covered", 0),
+                  word_entries=stats.get("hyp:HistWF-word-entries-covered", 0), failed=hw_fail[:3]))
+    c.oblige("hypotheses extraB (C11_build_histWF_of_search_invariant, C11_build_first_best_of_seg_iter) and wordFrameB (C11_build_reachable_search/_first_best) hold for every dumped history table "
+             "(no word exit in frame 0; the predecessor of a null entry is the root or a word entry)",
+             nhw > 0 and stats.get("hyp:extraB-FAILED", 0) == 0, dict(evaluated=nhw, failed=stats.get("hyp:extraB-FAILED", 0)))
+    c.oblige("instances of C11_build_checked agree with evaluation: whenever histWFB holds of the dumped table, latticeOKB accepts the model's lattice",
+             stats.get("hyp:model-lattice-fails-LatticeOK", 0) == 0 or bool(hw_fail), dict(model_lattice_not_ok=stats.get("hyp:model-lattice-fails-LatticeOK", 0)))
+    nch = stats.get("hyp:ChainOK-evaluated-on-first-best-segmentations", 0)
+    ch_fail = getattr(c, "_chain_fail", [])
+    c.oblige("hypothesis ChainOK of C11_build_first_best (Props/C11Build) holds for the first-best segmentation of every request with a dumped "
+             "history table (findChain/chainOKB run by the driver: the segmentation is a complete backtrace of the table from the root whose "
+             "last word ends in the last word-exit frame)",
+             nch > 0 and not ch_fail, dict(evaluated=nch, failed=ch_fail[:3]))
+    print(f"C11 hypotheses: ChainOK evaluated on {nch} first-best segmentations, failed {len(ch_fail)}", flush=True)
+    print(f"C11 hypotheses: HistWF evaluated on {nhw} dumped history tables "
+          f"({stats.get('hyp:HistWF-history-entries-covered', 0)} entries, {stats.get('hyp:HistWF-word-entries-covered', 0)} word entries), "
+          f"failed {len(hw_fail)}; extraB failed {stats.get('hyp:extraB-FAILED', 0)}; model lattice fails LatticeOK: {stats.get('hyp:model-lattice-fails-LatticeOK', 0)}", flush=True)
     if harness_ok:
         c.oblige("later utterances on the same decoder requested a lattice at the frame count of the previous utterance's last lattice",
                  stats.get("cache:same-frame-count-as-the-last-lattice-of-the-previous-utterance", 0) >= 1, {k: v for k, v in stats.items() if k.startswith("cache")})
         c.oblige("the cache clause was exercised across decoder_end_utt at an unchanged frame count (full_utt decodes)",
                  stats.get("cache:same-frame-count-across-decoder_end_utt", 0) >= 1, {k: v for k, v in stats.items() if k.startswith("cache")})
+        c.oblige("the cache clause was exercised with public calls between two requests, incl. decoder_add_word(update=TRUE) after the end "
+                 "of the utterance",
+                 stats.get("cache:second-request-after-add_word-update", 0) >= 1 and
+                 sum(1 for k in stats if k.startswith("cache:call-between-two-requests:")) >= 10,
+                 {k: v for k, v in stats.items() if k.startswith("cache")})
+        c.oblige("the large-grammar family produced lattices with two nodes of the same word and start frame whose grammar states are "
+                 "congruent modulo 2^16 / 2^15 (state numbers >= 2^15 in the lattice)",
+                 stats.get("big-fsg:two-nodes-same-word-same-start-frame-states-congruent", 0) >= 1 and
+                 stats.get("big-fsg:lattice-with-a-node-state>=2^15", 0) >= 1, {k: v for k, v in stats.items() if k.startswith("big-fsg")})
     c.cov.update({"evaluations": nlat, "distinct_nontrivial": len(distinct),
                   "rule": "one evaluation = one lattice request (mid-utterance or final) of a generated decode; non-trivial = a lattice was returned; "
                           "distinct by (grammar, audio, config, frame count)",
-                  "cases": len(cases), "corpus_cases": ncorp, "lattices_compared_with_model": nbuild, "distribution": dict(sorted(stats.items()))})
+                  "cases": len(cases), "corpus_cases": ncorp, "lattices_compared_with_model": nbuild, "distribution": dict(sorted(stats.items())),
+                  "wall_s_by_case_family": fam_wall})
 
 
 def replay(c, path):
